@@ -337,7 +337,10 @@ def m_from_raw(ctx, args):
 
 @model("core::num::from_le_bytes")
 def m_from_le(ctx, args):
-    return ("le_int", val(ctx, args[0]))
+    x = val(ctx, args[0])
+    while x[0] in ("copied", "refv", "deref"):
+        x = x[1]                 # a copied byte window is the window
+    return ("le_int", x)
 
 
 @model("bls12_381::multi_miller_loop")
@@ -1354,11 +1357,22 @@ def m_any_all(ctx, args):
     return ("b", eng.bdd.NOT(atom) if is_all else atom)
 
 
+@model("std::slice::from_ref", "core::slice::from_ref", "std::array::from_ref")
+def m_slice_from_ref(ctx, args):
+    """`slice::from_ref(&x)`: the one-element slice [x]."""
+    return ("refv", ("array", (val(ctx, args[0]),)))
+
+
 @model("core::slice::chunks_exact", "core::slice::chunks")
 def m_chunks(ctx, args):
     v, _, _ = array_like(ctx, args[0])
+    while v[0] in ("deref", "copied", "refv"):
+        v = v[1]
     n = args[1]
     total = vec_len(ctx.eng, v)
+    if total is None:
+        from .sym import seq_len
+        total = seq_len(v, ctx.eng.lens)
     t = ctx.arg_ty(0)
     if total is None and t is not None and strip_refs(t)[0] == "array":
         total = strip_refs(t)[2]
@@ -1517,6 +1531,13 @@ def m_index(ctx, args):
         if mutable and idx[3][0][0] == "int":
             return ("ref", mr[1], mr[2] + (("srange", 0, idx[3][0][1]),))
         return ("refv", ("slice_of", v, ("int", 0), idx[3][0]))
+    if idx[0] == "struct" and idx[1].endswith("RangeFull"):
+        t0 = ctx.arg_ty(0)
+        if t0 is not None and strip_refs(t0)[0] == "array" and vec_len(eng, v) is None:
+            eng.lens[v] = strip_refs(t0)[2]
+        if mutable:
+            return ("ref", mr[1], mr[2])
+        return ("refv", v)
     if idx[0] == "struct" and idx[1].endswith("RangeFrom"):
         _slice_obligation(ctx, v, idx[3][0], None)
         return ("refv", ("slice_of", v, idx[3][0], ("end",)))
@@ -1542,6 +1563,10 @@ def m_len(ctx, args):
     n = vec_len(ctx.eng, v)
     if isinstance(n, int):
         return ("int", n)
+    if isinstance(n, str):
+        return ("cparam", n)            # length of a `[T; N]` viewed as a slice
+    if isinstance(n, tuple) and n and n[0] in ("cparam", "const"):
+        return ("cparam", n[1])
     return ("len", v)
 
 
